@@ -442,6 +442,13 @@ func (x *Exec) callFunction(caller *frame, fn *ssa.Function, args []Value, env [
 		x.stubSeen["blackhole:"+fi.name] = true
 		return zeroResults(fn.Signature)
 	}
+	return x.callBody(caller, fn, args, env...)
+}
+
+// callBody interprets fn's SSA body (no stub / intrinsic / blackhole dispatch).
+func (x *Exec) callBody(caller *frame, fn *ssa.Function, args []Value, envs ...Value) Value {
+	fi := x.eng.info(fn)
+	env := envs
 	if fn.Blocks == nil {
 		// package init of a package without ssa? or external
 		if fn.Name() == "init" && fn.Pkg != nil {
